@@ -449,6 +449,7 @@ func Drive(id string) int {
 	wg.Wait()
 
 	merged := NewCov()
+	printedCrash := false
 	var viol []Violation
 	var inconclusive []string
 	for _, r := range results {
@@ -462,7 +463,10 @@ func Drive(id string) int {
 					Detail: "child process died inside a monitored call: " + r.lastCall, Case: r.crashLog, Shard: r.shard})
 			} else {
 				inconclusive = append(inconclusive, why)
-				fmt.Fprintf(os.Stderr, "---- shard %d log ----\n%s\n", r.shard, r.crashLog)
+				if !printedCrash {
+					printedCrash = true
+					fmt.Fprintf(os.Stderr, "---- shard %d log (first crashed shard only) ----\n%s\n", r.shard, trunc(r.crashLog, 2500))
+				}
 			}
 			continue
 		}
